@@ -8,7 +8,7 @@ git -C $wt apply $patch || { echo "PATCH DOES NOT APPLY"; exit 3; }
 (cd $wt && /venv/bin/python -m pytest -q -p no:cacheprovider 2>&1 | tail -1)
 export FADLMC_REPO=$wt FADLMC_EVIDENCE_DIR=/tmp/fadlmc_ref_ev FADLMC_REPLAY_DIR=/tmp/fadlmc_ref_rp
 cd $here
-for c in C01 C02 C03 C04 C05 C06 C07 C08 C09 C10 C11 C12 C13 C14 C15 C16 C17 C18 C19 C20; do
+for c in ${FADLMC_CHECKS:-C01 C02 C03 C04 C05 C06 C07 C08 C09 C10 C11 C12 C13 C14 C15 C16 C17 C18 C19 C20}; do
   out=$(/venv/bin/python -m fadlmc check $c --tier quick 2>&1); rc=$?
   if [ $rc -ne 0 ]; then echo "== $c rc=$rc"; echo "$out" | grep -E "VIOLATION|kind=|HARNESS" | head -4 | cut -c1-400; fi
 done
